@@ -200,8 +200,8 @@ def gen_cases(rng, names, tier, n):
     cases = [dict(c, src="corpus") for c in load_corpus("C07")]
     per = max(2, n // max(1, len(names)))
     for name in names:
-        sh, ta, tb = parse_name(name)
-        if tier == "thorough" and not has_pair(sh) and depth(sh) <= 1:
+        sh, ta, tb, tda, tdb = parse_name4(name)
+        if tier == "thorough" and not has_pair(sh) and depth(sh) <= 1 and (tda, tdb) == (ta, tb):
             va, vb = lat.enum_values(ta, 30), lat.enum_values(tb, 30)
             if va is not None and vb is not None:
                 step = max(1, len(vb) // 5)
@@ -230,10 +230,7 @@ def case_term(case, res):
     obs = "(Build_bobs %s %s %s %s %s %s %s %s %s %s)" % (
         cs, ov("ab"), ov("dab"), ov("adb"), ov("l"), ov("ml"), ov("r"), ov("mr"),
         g_bool(res["eq_l"]), g_bool(res["eq_r"]))
-    # HV_KEYED_FIXED=1: compare with the model of the proposed repair (used only to validate
-    # fixes/C07_keyed_skip_bottom.diff against a patched checkout, HV_REPO=<that checkout>)
-    fn = "bchk_fixed" if os.environ.get("HV_KEYED_FIXED") == "1" else "bchk"
-    return "(%s %s %s %s %s %s %s)" % (fn, cs, lat.coq_val(ta, case["a"]), lat.coq_val(ta, case["da"]),
+    return "(bchk %s %s %s %s %s %s)" % (cs, lat.coq_val(ta, case["a"]), lat.coq_val(ta, case["da"]),
                                         lat.coq_val(tb, case["b"]), lat.coq_val(tb, case["db"]), obs)
 
 
